@@ -90,12 +90,13 @@ def Tree.contains (t : Tree α) (K : α) : Bool :=
 
 /-- phase 1: walk from the key's node to the root; whenever the walk comes up from a right child
     take the left sibling's stored maximum and the parent's own minimum gradient
-    (written top-down along the search path) -/
+    (written top-down along the search path; the operand order of the two `if x > max: max = x` updates is
+    the code's, so that the generated program refines this definition over any `Fl`, ties and NaN included) -/
 def short (S : α) : Tree α → α → α
   | .nil, _ => S
   | .node l n _ _ r, K =>
     if K < n.key then short S l K
-    else if n.key < K then mx2 (mx2 (short S r K) (mxOf S l)) (minv n)
+    else if n.key < K then mx2 (minv n) (mx2 (mxOf S l) (short S r K))
     else S
 
 /-- phase 2: the exact walk over all smaller keys, nearest first, with the early exit -/
